@@ -42,7 +42,8 @@ def execute(case):
     from cocoasm.virtualfiles.cassette import CassetteFile
     datas = [filegen.expand(f["data"]) for f in case["files"]]
     tape = CassetteFile()
-    tape.add_files([filegen.to_coco(f, d) for f, d in zip(case["files"], datas)])
+    cocos = [filegen.to_coco(f, d) for f, d in zip(case["files"], datas)]
+    tape.add_files(cocos)
     buf = tape.get_buffer()
     labels = []
     nontrivial = False
@@ -82,4 +83,18 @@ def execute(case):
                 idx, len(p.data), len(d)), fid="C14:data", labels=labels)
         if any(b > 255 for b in p.blocks):
             return viol("file {}: data block longer than 255".format(idx), fid="C14:blocklen", labels=labels)
+    # a file list may name the same file twice, and the same objects may be written to another tape
+    if cocos:
+        again = CassetteFile()
+        again.add_files(cocos + cocos[:1])
+        try:
+            parsed = casref.parse(again.get_buffer())
+        except casref.TapeError as err:
+            return viol("the same file objects written to a second tape: strict tape parse failed: {}".format(err),
+                        fid="C14:reused:parse", labels=labels)
+        want = datas + datas[:1]
+        if len(parsed) != len(want) or any(bytes(p.data) != d for p, d in zip(parsed, want)):
+            return viol("the same file objects written to a second tape (the first of them twice): data blocks carry {} bytes per "
+                        "file, the files have {}".format([len(p.data) for p in parsed], [len(d) for d in want]),
+                        fid="C14:reused:data", labels=labels)
     return ok(labels=labels, nontrivial=nontrivial)
